@@ -31,3 +31,15 @@ def update(checks, pending):
         "Trusted: strace's record of fsync calls, the property's durability model.", "5/C06")
     for k in ("C05", "C06"):
         pending.pop(k, None)
+
+_prev3 = update
+def update(checks, pending):
+    _prev3(checks, pending)
+    checks["C08"] = ("concmon", "exploration", "Go race detector + schedule forcing (a call held inside vhook pause windows while other calls run; perturbed free-running mixes; large-record hammer) + recorded-history oracles (stream monitors, porcupine linearizability vs the sequential model, final-state observation)",
+        "No race report, no non-linearizable history, no monitor failure and no foreign error on all scenarios and histories executed.",
+        "Trusted: Go race detector, porcupine v1.3.0, harness/ref model. Reach is what the windows and perturbation produce.", "5/C08")
+    checks["C18"] = ("concmon", "exploration", "Go race detector + schedule forcing inside the notifier/blocking-wrapper windows + event-log oracles (no park on immediate return, no unexplained wake, no parked eligible waiter at quiescence by goroutine wait state, results linearizable as Consume, cancel/close errors)",
+        "All placements and perturbed schedules executed satisfied the wake/park/result rules for both wrappers.",
+        "Trusted: goroutine wait states from runtime.Stack, Go race detector, porcupine.", "5/C18")
+    for k in ("C08", "C18"):
+        pending.pop(k, None)
